@@ -435,12 +435,8 @@ func (s *Session) Replay(run func(raw json.RawMessage) *Failure) {
 				s.replayLines = append(s.replayLines, fmt.Sprintf("NOTE: property=%s known finding %s no longer reproduces with %s", s.Prop, id, rel))
 				s.mu.Unlock()
 			default:
-				ok := false
-				for _, c := range kf.Classes {
-					if c == f.Class {
-						ok = true
-					}
-				}
+				// the committed case is the finding's identity: it must fail the way it was recorded
+				ok := cf.Failure == nil || cf.Failure.Class == f.Class
 				if ok {
 					s.mu.Lock()
 					s.replayLines = append(s.replayLines, fmt.Sprintf("KNOWN-FINDING: property=%s %s: %s (replay=%s)", s.Prop, id, kf.What, rel))
